@@ -110,7 +110,7 @@ func (s *Service) OnPrepare(ctx context.Context,
 		return ErrInProgress
 	}
 
-	s.generations[account] = &generation{
+	generation := &generation{
 		processStarted: time.Now(),
 		id:             s.id,
 		account:        account,
@@ -121,10 +121,13 @@ func (s *Service) OnPrepare(ctx context.Context,
 		sharedVVecs:    make(map[uint64][]bls.PublicKey),
 	}
 
-	if err := s.contribution(ctx, s.generations[account]); err != nil {
+	if err := s.contribution(ctx, generation); err != nil {
 		log.Debug().Uint64("sender_id", senderID).Str("account", account).Msg("Failed to generate our own contribution")
 		return errors.Wrap(err, "failed to generate own contribution")
 	}
+
+	// Only track the generation once the prepare has succeeded; a refused prepare must not leave a generation in progress.
+	s.generations[account] = generation
 
 	return nil
 }
